@@ -2,8 +2,10 @@ SPECIFICATION Spec
 CONSTANTS
   MaxXfers = 2
   MaxMid = 1
+  Sources <- BothSrc
   Emit = TRUE
 INVARIANT WF
 INVARIANT Content
+INVARIANT RequireHonoured
 INVARIANT EmitState
 CHECK_DEADLOCK FALSE
